@@ -40,7 +40,7 @@ func (c11) Meta() fw.Meta {
 
 func (c11) Cases(tier string) int {
 	if tier == "thorough" {
-		return 3000
+		return 24000
 	}
 	return 320
 }
